@@ -90,7 +90,9 @@ def guarded_by_true(b, site, call_pos, negate=False, proj=None):
         return False
     want = ts['0'] if negate else els
     start = iteration_start(b, site)
-    if not b.pos_dominates(call_pos, site):
-        # the call itself may sit inside the iteration; the cut test below is what decides
-        pass
+    if start != (0, 0):
+        # a guard outside the loop of the site is judged from the function entry
+        inner = min((body for h, body in b.natural_loops() if site[0] in body), key=len)
+        if call_pos[0] not in inner:
+            start = (0, 0)
     return must_pass(b, start, [site], through=(), avoid_edges={(blk, want)})
